@@ -295,6 +295,7 @@ func checkW1(site *writeSite, allSites map[ssa.Instruction]bool) (bool, string) 
 		return last
 	}
 	// forward scan from the call to the first branch.
+	cur := e // the value that holds this write's error on the path being followed
 	start := site.Call.(ssa.Instruction)
 	b := start.Block()
 	idx := instrIndex(start) + 1
@@ -308,16 +309,16 @@ func checkW1(site *writeSite, allSites map[ssa.Instruction]bool) (bool, string) 
 			switch t := in.(type) {
 			case *ssa.Return:
 				rv := errIdx(t)
-				if rv != nil && derivedFrom(rv, e, 0) {
+				if rv != nil && (derivedFrom(rv, e, 0) || derivedFrom(rv, cur, 0)) {
 					return true, "error returned directly"
 				}
 				return false, "function returns without handing back this write's error"
 			case *ssa.If:
 				te, nonNil, ok := nilTest(t.Cond)
-				if !ok || te != e {
+				if !ok || (te != e && te != cur) {
 					return false, "the branch after the write does not test this write's error against nil"
 				}
-				return nonNilRegionOK(b.Succs[nonNil], b.Succs[1-nonNil], e, allSites, errIdx)
+				return nonNilRegionOK(b.Succs[nonNil], b.Succs[1-nonNil], te, allSites, errIdx)
 			case *ssa.Jump:
 				// fallthrough to successor
 			case *ssa.Panic:
@@ -329,13 +330,20 @@ func checkW1(site *writeSite, allSites map[ssa.Instruction]bool) (bool, string) 
 		}
 		visited[b] = true
 		nb := b.Succs[0]
-		// a phi merging this error with others is fine only if the test is on the phi; keep simple:
-		// continue scanning, but the tested value must still be e itself.
+		// a variable shared by several writes (err = writeA() / err = writeB(); if err != nil ..): where the paths
+		// meet, the merged value IS this write's error on the path that comes from here, so a test of the merged
+		// value is a test of it
+		prev := b
 		b, idx = nb, 0
-		// skip phis
 		for idx < len(b.Instrs) {
-			if _, ok := b.Instrs[idx].(*ssa.Phi); !ok {
+			phi, ok := b.Instrs[idx].(*ssa.Phi)
+			if !ok {
 				break
+			}
+			for k, pr := range b.Preds {
+				if pr == prev && k < len(phi.Edges) && (phi.Edges[k] == e || phi.Edges[k] == cur) {
+					cur = phi
+				}
 			}
 			idx++
 		}
